@@ -27,7 +27,10 @@ impl Canon {
         }
         if let Some((l, n)) = &self.pre {
             ids.push(["alpha", "beta", "rc"][*l as usize % 3].into());
-            ids.push(n.clone());
+            // an empty number is a label without a number (SemVer spelling only)
+            if !n.is_empty() {
+                ids.push(n.clone());
+            }
         }
         if let Some(p) = &self.post {
             ids.push("post".into());
